@@ -228,7 +228,7 @@ def uses_all(rng, g, m, names):
 
 
 def gen_doc(rng, *, stratum: str):
-    """stratum: exact | float | keywords | mixed | srefkw | compkw | initname | digits | gennames | rewrite | gencollide | sparse"""
+    """stratum: exact | float | keywords | mixed | srefkw | compkw | initname | digits | gennames | rewrite | gencollide | sparse | nearequal | idcollide"""
     floaty = stratum == "float"
     GM.SMOOTH = stratum == "digits"
     kw = stratum == "keywords"
@@ -464,7 +464,37 @@ def gen_doc(rng, *, stratum: str):
             if (rules2, inits2, params2) == (rules, inits, params):
                 break
             rules, inits, params = rules2, inits2, params2
-    finding = {"mixed": "F-C17-4", "srefkw": "F-C17-5", "compkw": "F-C17-6"}.get(stratum)
+    near = []
+    if stratum == "nearequal":
+        # relational conditions between two quantities, evaluated at states where they are equal, differ in the
+        # 12th-13th digit, or differ clearly: MathML relations are exact
+        comp_size = {c: Fraction(v) for c, v in comps}
+        pvals = {p_: Fraction(v_) for p_, v_ in params if v_ is not None and p_ not in [k for k, _ in inits]}
+        rels = ["AST_RELATIONAL_EQ", "AST_RELATIONAL_NEQ", "AST_RELATIONAL_EQ", "AST_RELATIONAL_NEQ",
+                "AST_RELATIONAL_LT", "AST_RELATIONAL_LEQ", "AST_RELATIONAL_GT", "AST_RELATIONAL_GEQ"]
+        for r_ in rxns:
+            sid = (r_["reactants"] + r_["products"])[0][0]
+            if pvals and rng.random() < 0.6:
+                pn = rng.choice(sorted(pvals))
+                target, tval = ["ci", pn], pvals[pn]
+            else:
+                c_ = rng.choice(["1", "2", "1/2", "3"])
+                target, tval = ["cn", c_], Fraction(c_)
+            if tval == 0:
+                target, tval = ["cn", "1"], Fraction(1)
+            cond = [rng.choice(rels), [["ci", sid], target] if rng.random() < 0.7 else [target, ["ci", sid]]]
+            if rng.random() < 0.25:
+                cond = ["AST_LOGICAL_NOT", [cond]]
+            r_["law"] = ["AST_FUNCTION_PIECEWISE", [r_["law"], cond, ["AST_PLUS", [["AST_TIMES", [r_["law"], ["cn", "2"]]], ["cn", "1"]]]]]
+            near.append((sid, tval))
+    if stratum == "idcollide":
+        # two distinct legal SBML ids that pysbml's name_to_py maps to one Python name (the mapping is injective
+        # only on ids without `__` that are not `<keyword>_`: Props/C17.lean, C17_name_mapping_injective)
+        a_, b_ = rng.choice([("if", "if_"), ("class", "class_"), ("x__46__y", "xy"), ("n__45__1", "n_1"), ("lambda_", "lambda")])
+        params.append([a_, "2"])
+        params.append([b_, "5"])
+        rxns[0]["law"] = ["AST_PLUS", [rxns[0]["law"], ["AST_TIMES", [["ci", a_], ["AST_PLUS", [["ci", b_], ["cn", "1"]]]]]]]
+    finding = {"mixed": "F-C17-4", "srefkw": "F-C17-5", "compkw": "F-C17-6", "idcollide": "F-C17-10"}.get(stratum)
     if stratum == "srefkw" and sref_n == 0:
         finding = None
     all_ids = ([c for c, _ in comps] + [s["id"] for s in species] + [p for p, _ in params] + [f["id"] for f in fundefs]
@@ -472,6 +502,18 @@ def gen_doc(rng, *, stratum: str):
     if len(set(all_ids)) != len(all_ids):
         return gen_doc(rng, stratum=stratum)  # ids of a document are unique: draw again
     states = [[[s["id"], rng.choice(["0", "1", "2", "3", "4", "1/2", "3/2", "6"])] for s in species] for _ in range(3)]
+    if near:
+        states.append([list(x) for x in states[0]])
+        for st in states:
+            for sid, tval in near:
+                sp = next(x for x in species if x["id"] == sid)
+                delta = rng.choice([Fraction(0), Fraction(1, 2 ** 40), -Fraction(1, 2 ** 40), Fraction(1, 2 ** 36),
+                                    -Fraction(1, 2 ** 33), Fraction(1, 2 ** 31), Fraction(1, 4)])
+                sym_v = tval * (1 + delta)
+                amount = sym_v if sp["hosu"] else sym_v * comp_size[sp["comp"]]
+                for x in st:
+                    if x[0] == sid:
+                        x[1] = str(amount)
     doc = {"comps": comps, "species": species, "params": params, "fundefs": fundefs, "inits": inits, "rules": rules,
            "rxns": rxns}
     prev_doc = None
@@ -1270,7 +1312,7 @@ def setup(ctx):
 def strata(ctx):
     n = ctx.n(1, 40)
     return [("exact", 110 * n), ("float", 60 * n), ("keywords", 40 * n), ("initname", 15 * n), ("mixed", 15 * n),
-            ("srefkw", 12 * n), ("compkw", 6 * n), ("digits", 12 * n), ("gennames", 24 * n), ("rewrite", 20 * n), ("gencollide", 24 * n), ("sparse", 12 * n)]
+            ("srefkw", 12 * n), ("compkw", 6 * n), ("digits", 12 * n), ("gennames", 24 * n), ("rewrite", 20 * n), ("gencollide", 24 * n), ("sparse", 12 * n), ("nearequal", 24 * n), ("idcollide", 6 * n)]
 
 
 PAIR_STEMS = [("Model-1", "model 1"), ("A", "a"), ("m.v2", "mv2"), ("x", "x"), ("my  model", "my-model")]
